@@ -77,3 +77,12 @@ CLAIMED['C20'] = dict(
          'Tie to the code: controlled pre-emption of the real Tracer at every yield point inside update_from_round with a reader and a clearer (must stay blocked; snapshots must equal a sequentially recomputed whole-rounds state) + free-running stress.',
     note='trusted: Coq kernel; the interleaving model (Conc/Tracer.v) and its fidelity to parking_lot::RwLock and the Rust memory model (assumed); the yield hook; schedule exploration is testing, not proof.',
     technique='Coq proof (lock invariant over all schedules of an interleaving model) + controlled-schedule execution of the real code')
+
+CLAIMED['C01'] = dict(
+    text='PARTIAL (TCP re-issue not proved). Coq theorem for ICMP and UDP over all input histories: every published round is exactly, slot by slot, the status list computed from the '
+         'network-level history of that round - Failed iff the send reported a transient failure, Complete (with the fields of the probe as sent and of the response) iff a genuine response '
+         '(validate, trace id, sequence issued in this round, probe still awaiting) was delivered before the round was published, the first one winning, Awaited otherwise; none invented, dropped or duplicated; '
+         'the ghost run publishes exactly the rounds of the real run. Snapshot totals: the aggregator model applied to the published rounds is compared with the real Tracer snapshot, and an independent '
+         'recomputation oracle checks the per-hop sums. Ground-truth oracle from the simulator for all protocols incl. TCP.',
+    note=STRAT_NOTE + ' Stated at the Network interface (what Channel hands to / receives from the strategy); the byte-level link (a response packet quoting probe p is genuine for p) belongs to C02.',
+    technique='Coq proof (ghost-history invariant by induction over loop iterations) + trace replay of extracted model vs implementation + simulator ground-truth oracle')
